@@ -21,7 +21,7 @@ theorem sim_sibling {w : Walker Node} {a : TW Node} (h : Sim H ps w a) (hd : 6 *
     rw [hp'path, h.pos]
     rw [h.pos] at hpath
     conv => rhs; rw [hpath, sibPath_snoc]
-  refine ⟨hp'wf, hsp, h.root, ?_, ?_, h.chain, h.pages, h.counters, h.norecon, h.cpr, h.outs⟩
+  refine ⟨hp'wf, hsp, h.root, ?_, ?_, h.chain, h.pages, h.counters, h.norecon, h.cpr, h.outs, h.nofix, h.diffs⟩
   · show w.stack = [] ↔ (sibPath a.pos).length ≤ _
     rw [sibPath_length]; exact h.stackE
   · intro sp rest e
@@ -64,7 +64,7 @@ theorem sim_compactStep {w : Walker Node} {a : TW Node} (h : Sim H ps w a) (hd :
 theorem sim_other_fields {w : Walker Node} {a : TW Node} (h : Sim H ps w a) (ss : List (Node × Nat)) (pn : Option Node)
     (lp : Option Pos) :
     Sim H ps ({ w with siblingStack := ss, prevNode := pn, lastPosition := lp } : Walker Node) a :=
-  ⟨h.wf, h.pos, h.root, h.stackE, h.stackT, h.chain, h.pages, h.counters, h.norecon, h.cpr, h.outs⟩
+  ⟨h.wf, h.pos, h.root, h.stackE, h.stackT, h.chain, h.pages, h.counters, h.norecon, h.cpr, h.outs, h.nofix, h.diffs⟩
 
 theorem sim_stackEmpty {w : Walker Node} {a : TW Node} (h : Sim H ps w a) :
     w.stack.isEmpty = a.stackEmpty (cfgOf H ps w.parentPage) := by
@@ -132,7 +132,7 @@ theorem sim_compactLoop : ∀ (n i layers : Nat) (w : Walker Node) (a : TW Node)
           simp [k0] at hposle
           exact hposle
         refine ⟨_, rfl, ?_, hsameAll _ rfl rfl rfl rfl rfl⟩
-        refine ⟨hs2.wf, hs2.pos, ?_, hs2.stackE, hs2.stackT, hs2.chain, ?_, hs2.counters, hs2.norecon, hs2.cpr, hs2.outs⟩
+        refine ⟨hs2.wf, hs2.pos, ?_, hs2.stackE, hs2.stackT, hs2.chain, ?_, hs2.counters, hs2.norecon, hs2.cpr, hs2.outs, hs2.nofix, hs2.diffs⟩
         · simp [TW.setNode, hnil, upd_same]
         · intro sp hsp
           have : w2.stack = [] := List.isEmpty_iff.mp hempty
@@ -145,7 +145,7 @@ theorem sim_compactLoop : ∀ (n i layers : Nat) (w : Walker Node) (a : TW Node)
         have hnp : (cfgOf H ps w.parentPage).hasParent = true := by simp [cfgOf, hpp']
         rw [if_pos hnp, if_neg hpn]
         refine ⟨_, rfl, ?_, hsameAll _ rfl rfl rfl rfl rfl⟩
-        refine ⟨hs2.wf, hs2.pos, hs2.root, hs2.stackE, hs2.stackT, hs2.chain, hs2.pages, hs2.counters, hs2.norecon, ?_, hs2.outs⟩
+        refine ⟨hs2.wf, hs2.pos, hs2.root, hs2.stackE, hs2.stackT, hs2.chain, hs2.pages, hs2.counters, hs2.norecon, ?_, hs2.outs, hs2.nofix, hs2.diffs⟩
         simp only [List.map_append, List.map_cons, List.map_nil]
         rw [hs2.cpr, hs2.pos]
     · have hse' : ¬ ((a.compactStep H).2.up).stackEmpty (cfgOf H ps w.parentPage) = true := by
